@@ -116,3 +116,239 @@ theorem generatorCall_exit (s d : Path) (created : List String) (e : Exit) (w : 
     (generatorCall s d created e w).2 = e := rfl
 
 end Pyndl.Effects
+
+/-! ## sibling brackets (the real layout of generator input) -/
+
+namespace Pyndl.Effects
+open List
+
+theorem below_trans_false {s d p : Path} (hsd : below s d = false) (hds : below d s = false)
+    (hs : below s p = true) : below d p = false := by
+  cases h : below d p with
+  | false => rfl
+  | true =>
+    unfold below at *
+    have h1 := List.isPrefixOf_iff_prefix.mp hs
+    have h2 := List.isPrefixOf_iff_prefix.mp h
+    rcases List.prefix_or_prefix_of_prefix h1 h2 with h3 | h3
+    · have := List.isPrefixOf_iff_prefix.mpr h3; rw [this] at hsd; cases hsd
+    · have := List.isPrefixOf_iff_prefix.mpr h3; rw [this] at hds; cases hds
+
+/-- **sibling brackets are clean.** Outer temporary directory `s`, a first step
+    that works only below `s` and may raise, then (only if it returned) a second
+    bracket for a directory `d` that is NOT below `s` and not above it — the
+    layout of `ndl.ndl` with generator input — around a body that works only
+    below `d`: afterwards the set of existing paths is the one before. -/
+theorem bracket_siblings_clean (s d : Path) (first body : Path → World → World × Exit)
+    (hf : OnlyBelow s first) (hb : OnlyBelow d body)
+    (hsd : below s d = false) (hds : below d s = false) (w : World)
+    (hs : ∀ p ∈ w, below s p = false) (hd : ∀ p ∈ w, below d p = false) (p : Path) :
+    p ∈ (bracket s (fun s w => seqBody (first s) (bracket d body) w) w).1 ↔ p ∈ w := by
+  have hout : ∀ (w1 : World), (∀ q, below s q = false → (q ∈ w1 ↔ q ∈ s :: w)) →
+      (p ∈ rmtree s w1 ↔ p ∈ w) := by
+    intro w1 h1
+    rw [mem_rmtree]
+    constructor
+    · rintro ⟨hp, hps⟩
+      have := (h1 p hps).mp hp
+      rcases List.mem_cons.mp this with rfl | h
+      · rw [below_self] at hps; cases hps
+      · exact h
+    · intro hp
+      exact ⟨(h1 p (hs p hp)).mpr (List.mem_cons_of_mem _ hp), hs p hp⟩
+  unfold bracket
+  simp only
+  unfold seqBody
+  have hfirst := hf (s :: w)
+  rcases hfw : first s (s :: w) with ⟨w1, e1⟩
+  rw [hfw] at hfirst
+  simp only at hfirst
+  cases e1 with
+  | raised => exact hout w1 hfirst
+  | returned =>
+    simp only
+    have hfresh : ∀ q ∈ w1, below d q = false := by
+      intro q hq
+      cases hsq : below s q with
+      | true => exact below_trans_false hsd hds hsq
+      | false =>
+        have := (hfirst q hsq).mp hq
+        rcases List.mem_cons.mp this with rfl | h
+        · exact hds
+        · exact hd q h
+    have hinner : ∀ q, q ∈ (bracket d body w1).1 ↔ q ∈ w1 := bracket_clean d body hb w1 hfresh
+    unfold bracket at hinner
+    simp only at hinner
+    apply hout
+    intro q hq
+    rw [hinner q]
+    exact hfirst q hq
+
+theorem spool_onlyBelow (spooled : List String) (e : Exit) (s : Path) :
+    OnlyBelow s (fun s w => (spooled.map (fun name => s ++ [name]) ++ w, e)) := by
+  intro w p hp
+  simp only [List.mem_append, List.mem_map]
+  constructor
+  · rintro (⟨name, _, rfl⟩ | h)
+    · rw [below_append] at hp; cases hp
+    · exact h
+  · exact fun h => Or.inr h
+
+/-- generator input, spooling may raise: clean for every pair of exits -/
+theorem generatorCallS_clean (s d : Path) (spooled : List String) (spoolExit : Exit)
+    (created : List String) (e : Exit) (w : World)
+    (hsd : below s d = false) (hds : below d s = false)
+    (hs : ∀ p ∈ w, below s p = false) (hd : ∀ p ∈ w, below d p = false) (p : Path) :
+    p ∈ (generatorCallS s d spooled spoolExit created e w).1 ↔ p ∈ w :=
+  bracket_siblings_clean s d (fun s w => (spooled.map (fun name => s ++ [name]) ++ w, spoolExit))
+    (chunkBody created e) (spool_onlyBelow spooled spoolExit s) (chunkBody_onlyBelow created e d)
+    hsd hds w hs hd p
+
+/-- the exit the caller sees: the spooling exception if spooling raised,
+    otherwise the exit of the learner -/
+theorem generatorCallS_exit (s d : Path) (spooled : List String) (spoolExit : Exit)
+    (created : List String) (e : Exit) (w : World) :
+    (generatorCallS s d spooled spoolExit created e w).2
+      = (match spoolExit with | .raised => .raised | .returned => e) := by
+  cases spoolExit <;> rfl
+
+theorem generatorCall_eq (s d : Path) (created : List String) (e : Exit) (w : World) :
+    generatorCall s d created e w = generatorCallS s d ["events.tab.gz"] .returned created e w := rfl
+
+/-! ## worlds with contents -/
+
+theorem get_put (fs : FS) (q p : Path) (n : Node) :
+    (fs.put q n).get p = if q = p then some n else fs.get p := by
+  unfold FS.put FS.get
+  by_cases h : q = p
+  · simp [List.find?_cons, h]
+  · have : (q == p) = false := by simpa using h
+    simp [List.find?_cons, this, h]
+
+theorem get_filter (f : Path → Bool) (fs : FS) (p : Path) :
+    FS.get (fs.filter (fun x => f x.1)) p = if f p then fs.get p else none := by
+  unfold FS.get
+  induction fs with
+  | nil => simp
+  | cons x fs ih =>
+    by_cases hx : x.1 = p
+    · subst hx
+      by_cases hf : f x.1 = true
+      · simp [List.filter_cons, hf, List.find?_cons]
+      · have hf' : f x.1 = false := by simpa using hf
+        rw [List.filter_cons, if_neg hf, ih]
+        simp [hf']
+    · have hne : (x.1 == p) = false := by simpa using hx
+      by_cases hf : f x.1 = true
+      · rw [List.filter_cons, if_pos hf, List.find?_cons, hne, List.find?_cons, hne]
+        exact ih
+      · rw [List.filter_cons, if_neg hf, List.find?_cons, hne]
+        exact ih
+
+theorem get_del (fs : FS) (q p : Path) : (fs.del q).get p = if q = p then none else fs.get p := by
+  unfold FS.del
+  rw [get_filter (fun x => x != q) fs p]
+  by_cases h : q = p
+  · subst h; simp
+  · have : (p != q) = true := by simpa using (fun e => h e.symm)
+    simp [this, h]
+
+theorem get_rmtreeC (d : Path) (fs : FS) (p : Path) :
+    (rmtreeC d fs).get p = if below d p then none else fs.get p := by
+  unfold rmtreeC
+  rw [get_filter (fun x => !below d x) fs p]
+  cases below d p <;> simp
+
+/-- **the bracket restores the world, contents included**: if the body leaves
+    everything outside `d` as it was and nothing existed at or below `d`, then
+    after the call every path has the node (existence, kind, bytes) it had before. -/
+theorem bracketC_clean (d : Path) (body : Path → FS → FS × Exit) (hb : OnlyBelowC d body)
+    (fs : FS) (hfresh : ∀ p, below d p = true → fs.get p = none) (p : Path) :
+    (bracketC d body fs).1.get p = fs.get p := by
+  unfold bracketC
+  simp only
+  rw [get_rmtreeC]
+  cases hp : below d p with
+  | true => simp [hfresh p hp]
+  | false =>
+    simp only [Bool.false_eq_true, if_false]
+    rw [hb (fs.put d .dir) p hp, get_put]
+    have : d ≠ p := by intro e; rw [← e, below_self] at hp; cases hp
+    simp [this]
+
+theorem bracketC_exit (d : Path) (body : Path → FS → FS × Exit) (fs : FS) :
+    (bracketC d body fs).2 = (body d (fs.put d .dir)).2 := rfl
+
+theorem runOp_get (d : Path) (fs : FS) (op : Op) (p : Path) (hp : below d p = false) :
+    (runOp d fs op).get p = fs.get p := by
+  cases op with
+  | write name bytes =>
+    simp only [runOp, get_put]
+    have : d ++ [name] ≠ p := by intro e; rw [← e, below_append] at hp; cases hp
+    simp [this]
+  | remove name =>
+    simp only [runOp, get_del]
+    have : d ++ [name] ≠ p := by intro e; rw [← e, below_append] at hp; cases hp
+    simp [this]
+
+theorem runOps_get (d : Path) : ∀ (ops : List Op) (fs : FS) (p : Path), below d p = false →
+    (runOps d ops fs).get p = fs.get p
+  | [], _, _, _ => rfl
+  | op :: ops, fs, p, hp => by
+    unfold runOps
+    rw [List.foldl_cons]
+    have := runOps_get d ops (runOp d fs op) p hp
+    unfold runOps at this
+    rw [this, runOp_get d fs op p hp]
+
+/-- the modelled bodies never touch anything outside their directory -/
+theorem opsBody_onlyBelowC (ops : List Op) (e : Exit) (d : Path) : OnlyBelowC d (opsBody ops e) :=
+  fun fs p hp => runOps_get d ops fs p hp
+
+/-- sibling brackets on worlds with contents -/
+theorem bracketC_siblings_clean (s d : Path) (first body : Path → FS → FS × Exit)
+    (hf : OnlyBelowC s first) (hb : OnlyBelowC d body)
+    (hsd : below s d = false) (hds : below d s = false) (fs : FS)
+    (hs : ∀ p, below s p = true → fs.get p = none) (hd : ∀ p, below d p = true → fs.get p = none)
+    (p : Path) :
+    (bracketC s (fun s fs => seqBody (first s) (bracketC d body) fs) fs).1.get p = fs.get p := by
+  have hout : ∀ (fs1 : FS), (∀ q, below s q = false → fs1.get q = (fs.put s .dir).get q) →
+      (rmtreeC s fs1).get p = fs.get p := by
+    intro fs1 h1
+    rw [get_rmtreeC]
+    cases hp : below s p with
+    | true => simp [hs p hp]
+    | false =>
+      simp only [Bool.false_eq_true, if_false]
+      rw [h1 p hp, get_put]
+      have : s ≠ p := by intro e; rw [← e, below_self] at hp; cases hp
+      simp [this]
+  unfold bracketC
+  simp only
+  unfold seqBody
+  have hfirst := hf (fs.put s .dir)
+  rcases hfw : first s (fs.put s .dir) with ⟨fs1, e1⟩
+  rw [hfw] at hfirst
+  simp only at hfirst
+  cases e1 with
+  | raised => exact hout fs1 hfirst
+  | returned =>
+    simp only
+    have hfresh : ∀ q, below d q = true → fs1.get q = none := by
+      intro q hq
+      have hsq : below s q = false := by
+        cases h : below s q with
+        | false => rfl
+        | true => rw [below_trans_false hsd hds h] at hq; cases hq
+      rw [hfirst q hsq, get_put]
+      have : s ≠ q := by intro e; rw [← e, hds] at hq; cases hq
+      simp [this, hd q hq]
+    have hinner : ∀ q, (bracketC d body fs1).1.get q = fs1.get q := bracketC_clean d body hb fs1 hfresh
+    unfold bracketC at hinner
+    simp only at hinner
+    apply hout
+    intro q hq
+    rw [hinner q]
+    exact hfirst q hq
+
+end Pyndl.Effects
